@@ -5,9 +5,9 @@ CONSTANTS
   PerRound = 1
   NotifyMode = "token"
   TempApps = {}
-  TwoPhaseApps = {}
+  TwoPhaseApps = {2}
   ExitMode = "recheck"
-INVARIANTS FIFO LockOK
+INVARIANTS FIFO LockOK OneAtATime StageOK
 CONSTRAINT Mark
 POSTCONDITION Accepted
 CHECK_DEADLOCK FALSE
